@@ -188,7 +188,7 @@ def run(ctx):
             # ---------------- inverse square between detector altitudes -----------------------
             log["batch"].clear()
             k525 = CphotAng(525.0)
-            dets = [33.0, 100.0, 1000.0, 36000.0]
+            dets = [33.0, 100.0, 1000.0, 36000.0, 21.0, 15.0, 5.0]  # incl. detectors below some of the decays
             ks = {h: CphotAng(h) for h in dets}
             m = ctx.pick(150, 1500)
             for i in range(m):
@@ -204,8 +204,12 @@ def run(ctx):
                 ctx.count("inv-square")
                 if float(d0) > 0:
                     r = float(d1) / float(d0)
-                    ctx.track_worst("inv_square_ratio_rel", abs(r / want - 1), 1e-3)
-                    if not (abs(r / want - 1) <= 1e-3 and float(c1) == float(c0)):
+                    # the kernel forms the distance from float32 angles (law of sines); for a detector
+                    # inside the decay range the distance can be short and the small central angle is a
+                    # difference of numbers near pi/2: relative error ~ eps32 (R + z) / d, twice that squared
+                    tol_r = 1e-3 if h >= 33.0 else 1e-3 + 8e-7 * (RADE + a) / max(abs(path_to_altitude(h, bc) - sa), 1e-6)
+                    ctx.track_worst("inv_square_ratio_rel", abs(r / want - 1) / tol_r * 1e-3, 1e-3)
+                    if not (abs(r / want - 1) <= tol_r and float(c1) == float(c0)):
                         ctx.violation("inv-square", f"detector {h} km vs 525 km at beta={math.degrees(b):.3f} deg, alt={a:.3f} km: density ratio {r!r}, squared distance ratio {want!r}; angles {float(c1)!r} vs {float(c0)!r}", {"det": h, "beta": b, "alt": a, "E": e})
                 elif float(d1) != 0:
                     ctx.violation("inv-square", f"density is 0 at 525 km but {float(d1)!r} at {h} km", {"det": h, "beta": b, "alt": a, "E": e})
@@ -215,6 +219,6 @@ def run(ctx):
     for mname in ("wiring", "pe", "range-cut", "eff-angle", "eff-angle-boundary", "inv-square", "history"):
         ctx.require(mname)
     return ctx.finish(
-        rule="batches through the real EAS.__call__ for detector altitudes {33, 525, 1000[, 100, 36000]} km x 3 (area, efficiency, threshold) settings: beta in [0, 42 deg], shower energies 1e-4..3e3 x 100 PeV, decay altitudes uniform in [0,20] km with 10 hostile values (-inf, -5, -1e-9, -5e-324, 0, 20, 20+ulp, 20+1e-9, 1e3, +inf) at random positions; thresholds placed so that PE/threshold is exactly 2 and one ulp either side; two-detector runs of the kernel for the inverse-square clause; a case is a distinct (detector, beta, altitude, energy)",
+        rule="batches through the real EAS.__call__ for detector altitudes {33, 525, 1000[, 100, 36000]} km (inverse-square clause also 21, 15, 5 km: detectors below some of the decays) x 3 (area, efficiency, threshold) settings: beta in [0, 42 deg], shower energies 1e-4..3e3 x 100 PeV, decay altitudes uniform in [0,20] km with 10 hostile values (-inf, -5, -1e-9, -5e-324, 0, 20, 20+ulp, 20+1e-9, 1e3, +inf) at random positions; thresholds placed so that PE/threshold is exactly 2 and one ulp either side; two-detector runs of the kernel for the inverse-square clause; a case is a distinct (detector, beta, altitude, energy)",
         assumptions=["kernel Earth radius 6378.14 km for the distance ratio", "squared-ratio tolerance 1e-3 (the property gives no figure; float32 evaluation of the viewing angle moves it by up to 1.5e-4)", "synchronous dask scheduler here; schedulers are C10's subject", "NaN decay altitudes are outside the domain"],
     )
